@@ -4,7 +4,9 @@ Confirms a seeded change (patch.diff + demo/ with run.txt + README.md) in a scra
 against it (VERIF_REPO), then files it under /verif/seeded/<seed-id>/ with meta.json.  Nothing is ever applied to /repo itself."""
 import json, os, shutil, subprocess, sys, time
 ROOT = os.path.dirname(os.path.dirname(os.path.abspath(__file__)))
-src, sid, props = sys.argv[1], sys.argv[2], sys.argv[3:]
+args = [a for a in sys.argv[1:] if a != '--checks-only']
+CHECKS_ONLY = '--checks-only' in sys.argv   # re-run only the checks against an already confirmed seed
+src, sid, props = os.path.abspath(args[0]), args[1], args[2:]
 wt = f'/tmp/seedwt-{sid}'
 env = dict(os.environ, GOFLAGS='-mod=mod', GOPROXY='off', GOSUMDB='off', GOTOOLCHAIN='local')
 def sh(cmd, cwd=None, e=None, timeout=3000):
@@ -38,24 +40,32 @@ try:
         else:
             shutil.copy(os.path.join(demo, f), dst)
         placed.append(dst)
-    rc0, out0 = sh(runcmd, cwd=wt)
-    meta['demo_without_change'] = 'pass' if rc0 == 0 else 'FAIL'
+    if CHECKS_ONLY:
+        prev = json.load(open(os.path.join(src, 'meta.json'))) if os.path.exists(os.path.join(src, 'meta.json')) else {}
+        rc0 = 0
+        meta['demo_without_change'] = prev.get('demo_without_change', '?')
+    else:
+        rc0, out0 = sh(runcmd, cwd=wt)
+        meta['demo_without_change'] = 'pass' if rc0 == 0 else 'FAIL'
     rc, out = sh(['git', 'apply', os.path.join(src, 'patch.diff')], cwd=wt)
     assert rc == 0, 'patch does not apply: ' + out
     rcb, outb = sh('go build ./...', cwd=wt)
     meta['builds'] = rcb == 0
-    rc1, out1 = sh(runcmd, cwd=wt)
-    meta['demo_with_change'] = 'fail' if rc1 != 0 else 'PASSES'
+    if CHECKS_ONLY:
+        meta['demo_with_change'] = prev.get('demo_with_change', '?')
+    else:
+        rc1, out1 = sh(runcmd, cwd=wt)
+        meta['demo_with_change'] = 'fail' if rc1 != 0 else 'PASSES'
     for p in placed:
         shutil.rmtree(p) if os.path.isdir(p) else os.remove(p)
     shutil.rmtree(os.path.join(wt, 'zz_demo'), ignore_errors=True)
     # the repository's own suite with the change (retry once: broker/client tests are timing sensitive under load)
-    for attempt in (1, 2):
+    for attempt in ((1, 2) if not CHECKS_ONLY else ()):
         rcs, outs = sh(['python3', os.path.join(ROOT, 'tools', 'baseline.py'), './packet/...', './topic/...', './session/...', './broker/...', './client/...', './transport/flow/...'],
                        e=dict(env, VERIF_REPO=wt))
         if rcs == 0:
             break
-    meta['existing_suite_with_change'] = 'pass' if rcs == 0 else 'FAIL: ' + outs[-600:]
+    meta['existing_suite_with_change'] = prev.get('existing_suite_with_change', '?') if CHECKS_ONLY else ('pass' if rcs == 0 else 'FAIL: ' + outs[-600:])
     meta['runcmd'] = runcmd
     meta['checks'] = {}
     for p in props:
@@ -83,10 +93,11 @@ finally:
                 os.remove(os.path.join(ROOT, d, f))
 dst = os.path.join(ROOT, 'seeded', sid)
 os.makedirs(dst, exist_ok=True)
-shutil.copy(os.path.join(src, 'patch.diff'), os.path.join(dst, 'patch.diff'))
-shutil.rmtree(os.path.join(dst, 'demo'), ignore_errors=True)
-shutil.copytree(os.path.join(src, 'demo'), os.path.join(dst, 'demo'))
-if readme:
+if os.path.abspath(src) != os.path.abspath(dst):
+    shutil.copy(os.path.join(src, 'patch.diff'), os.path.join(dst, 'patch.diff'))
+    shutil.rmtree(os.path.join(dst, 'demo'), ignore_errors=True)
+    shutil.copytree(os.path.join(src, 'demo'), os.path.join(dst, 'demo'))
+if readme and os.path.abspath(src) != os.path.abspath(dst):
     open(os.path.join(dst, 'README.md'), 'w').write(readme)
     meta['needs_to_manifest'] = 'see README.md'
 json.dump(meta, open(os.path.join(dst, 'meta.json'), 'w'), indent=1)
